@@ -147,6 +147,37 @@ fn check_signed_sets(objs: &Value, now: i64) -> Vec<String> {
     bad
 }
 
+/// C03 "removed from configuration": every payload a ROA object of the CA carries (simple or aggregated) must still be
+/// configured, and every ASPA object must belong to a configured customer.
+fn stale_payloads(ca: &Value) -> Vec<String> {
+    let mut bad = Vec::new();
+    let configured: std::collections::BTreeSet<String> = ca["routes"]["map"].as_object().map(|m| m.keys().cloned().collect()).unwrap_or_default();
+    let aspas: std::collections::BTreeSet<String> = match &ca["aspas"] {
+        Value::Object(m) => m.get("attestations").and_then(|a| a.as_object()).map(|a| a.keys().cloned().collect()).unwrap_or_else(|| m.keys().cloned().collect()),
+        Value::Array(a) => a.iter().filter_map(|d| d["customer"].as_u64().map(|c| c.to_string()).or_else(|| d["customer"].as_str().map(|s| s.to_string()))).collect(),
+        _ => Default::default(),
+    };
+    for (rcn, rc) in ca["resources"].as_object().map(|m| m.iter().collect::<Vec<_>>()).unwrap_or_default() {
+        for sect in ["simple", "aggregate"] {
+            if let Some(Value::Object(m)) = rc["roas"].get(sect) {
+                for (k, info) in m {
+                    for a in info["authorizations"].as_array().cloned().unwrap_or_default() {
+                        let a = a.as_str().map(|s| s.to_string()).unwrap_or_else(|| a.to_string());
+                        if !configured.contains(&a) { bad.push(format!("class {rcn}: ROA object {k} ({sect}) carries {a}, which is not configured")); }
+                    }
+                }
+            }
+        }
+        if let Some(Value::Object(m)) = rc.get("aspas") {
+            for k in m.keys() {
+                let c = k.trim_start_matches("AS").to_string();
+                if !aspas.is_empty() && !aspas.iter().any(|x| x.trim_start_matches("AS") == c) { bad.push(format!("class {rcn}: ASPA object for customer {k}, which is not configured")); }
+            }
+        }
+    }
+    bad
+}
+
 struct Out { w: CaseWriter, jsonl: std::fs::File, op_hist: BTreeMap<String, u64>, cmd_hist: BTreeMap<String, u64>, err_hist: BTreeMap<String, u64>,
              keystate_hist: BTreeMap<String, u64>, distinct: std::collections::BTreeSet<String>, samples: Vec<Value>, impl_failures: Vec<Value> }
 
@@ -229,6 +260,10 @@ fn emit_cases(sys: &Sys, it: &mut Interner, before: &Snapshot, after: &Snapshot,
             coq_list(&cmds.iter().map(|c| format!("({c})")).collect::<Vec<_>>()),
             ca_term(it, post), objects_term(it, &after.objs[h]), renew_term);
         let mut o = out.lock().unwrap();
+        for what in stale_payloads(post) {
+            let idx = o.w.total;
+            o.impl_failures.push(json!({"index": idx, "history": hist, "ca": h, "op": op_desc, "class": {"object_for_removed_configuration": true}, "what": what}));
+        }
         for what in check_signed_sets(&after.objs[h], now) {
             let idx = o.w.total;
             o.impl_failures.push(json!({"index": idx, "history": hist, "ca": h, "op": op_desc, "class": {"signed_sets": true}, "what": what}));
@@ -262,6 +297,10 @@ fn run_history(args: &Args, hist: u64, seed: u64, n_ops: u64, out: &Mutex<Out>) 
     let dir = args.out.join(format!("h{hist}"));
     let mut opts = SysOpts::new(&dir);
     opts.mem_seed = seed;
+    if hist % 3 == 1 {
+        // small aggregation thresholds: ROAs of one origin are aggregated into one object after a few additions
+        opts.extra_toml = "roa_aggregate_threshold = 3\nroa_deaggregate_threshold = 2".into();
+    }
     if hist % 3 == 2 {
         // the smallest lifetimes the configuration accepts (the margin must stay below the lifetime, so without
         // moving the clock no object is ever inside its margin: renewal runs must renew nothing)
@@ -341,6 +380,22 @@ fn run_history(args: &Args, hist: u64, seed: u64, n_ops: u64, out: &Mutex<Out>) 
         let _ = sys.parent_remove("d", "b");
         let after = snapshot(&sys);
         emit_cases(&sys, &mut it, &before, &after, &json!({"op": "remove_second_parent", "ca": "d", "scripted": true}), None, hist, out);
+    }
+    if hist % 3 == 1 {
+        // aggregated ROAs: one prefix of an origin is replaced by another in a single update, then removed altogether
+        let steps: Vec<(&str, Box<dyn Fn(&Sys) -> Result<(), String>>)> = vec![
+            ("roa_add_many", Box::new(|s| s.routes_update("b", &["10.0.0.0/24 => 64512", "10.0.1.0/24 => 64512", "10.1.0.0/24 => 64512", "10.1.1.0/24 => 64513"], &[]).map_err(|e| e.to_string()))),
+            ("roa_swap_one_prefix", Box::new(|s| s.routes_update("b", &["10.2.0.0/24 => 64512"], &["10.0.0.0/24 => 64512"]).map_err(|e| e.to_string()))),
+            ("roa_change_maxlen", Box::new(|s| s.routes_update("b", &["10.0.1.0/24-25 => 64512"], &["10.0.1.0/24 => 64512"]).map_err(|e| e.to_string()))),
+            ("roa_remove_all", Box::new(|s| s.routes_update("b", &[], &["10.2.0.0/24 => 64512", "10.0.1.0/24-25 => 64512", "10.1.0.0/24 => 64512", "10.1.1.0/24 => 64513"]).map_err(|e| e.to_string()))),
+        ];
+        for (name, step) in steps {
+            let before = snapshot(&sys);
+            let r = step(&sys);
+            let after = snapshot(&sys);
+            if let Err(e) = &r { *out.lock().unwrap().err_hist.entry(format!("scripted {name}: {}", e.chars().take(120).collect::<String>())).or_default() += 1; }
+            emit_cases(&sys, &mut it, &before, &after, &json!({"op": name, "scripted": true, "aggregated": true}), None, hist, out);
+        }
     }
     if hist % 3 == 2 {
         // objects one week outside their margin: a renewal run must leave every ROA and ASPA alone
